@@ -1,6 +1,7 @@
 package hclient
 
 import (
+	"encoding/base64"
 	"fmt"
 	"math/rand/v2"
 	"strings"
@@ -55,9 +56,9 @@ var controls = []struct {
 	c   string
 	bad bool
 }{
-	{"trackID=%d", false}, {"rtsp://$HOST/stream/trackID=%d", false}, {"?ctype=video&n=%d", false},
+	{"trackID=%d", false}, {"$SCHEME://$HOST/stream/trackID=%d", false}, {"?ctype=video&n=%d", false},
 	{"/stream/trackID=%d", false}, {"trackID=%d?x=1", false}, {"track%%20ID=%d", false},
-	{"track%%zzID=%d", true}, {"rtsp://$HOST/str%%zz/%d", true}, {"trackID=%d\x7f", true},
+	{"track%%zzID=%d", true}, {"$SCHEME://$HOST/str%%zz/%d", true}, {"trackID=%d\x7f", true},
 }
 
 func (g *gen) medias(n int, back bool, badCtl bool) []MediaSpec {
@@ -184,7 +185,7 @@ func (g *gen) mutStatus(method string) piece {
 	if code >= 300 && code < 400 && (method == "DESCRIBE" || g.chance(0.3)) {
 		switch g.pick(6) {
 		case 0, 1:
-			muts = append(muts, Mut{Op: "set", K: "Location", V: "rtsp://$HOST/other"})
+			muts = append(muts, Mut{Op: "set", K: "Location", V: "$SCHEME://$HOST/other"})
 			abs += ",lo=g"
 		case 2:
 			muts = append(muts, Mut{Op: "set", K: "Location", V: pickOf(g, "http://$HOST/other", "rtsp://[::1/x", "%zz", "")})
@@ -193,7 +194,7 @@ func (g *gen) mutStatus(method string) piece {
 			muts = append(muts, Mut{Op: "set", K: "Location", V: "rtsp://127.0.0.1:1/other"})
 			abs += ",lo=x"
 		case 4:
-			muts = append(muts, Mut{Op: "add", K: "Location", V: "rtsp://$HOST/a"}, Mut{Op: "add", K: "Location", V: "rtsp://$HOST/b"})
+			muts = append(muts, Mut{Op: "add", K: "Location", V: "$SCHEME://$HOST/a"}, Mut{Op: "add", K: "Location", V: "$SCHEME://$HOST/b"})
 			abs += ",lo=m"
 		}
 	}
@@ -257,7 +258,7 @@ func (g *gen) mutDescribe() piece {
 	case 6:
 		return respPiece("r,base=0", Mut{Op: "set", K: "Content-Base", V: pickOf(g, "::", "http://x/", "rtsp://[::1/")})
 	case 7:
-		return respPiece("r,base=0", Mut{Op: "add", K: "Content-Base", V: "rtsp://$HOST/stream/"})
+		return respPiece("r,base=0", Mut{Op: "add", K: "Content-Base", V: "$SCHEME://$HOST/stream/"})
 	case 8:
 		return respPiece("r", Mut{Op: "set", K: "Content-Base", V: "/stream/"})
 	case 9:
@@ -265,7 +266,7 @@ func (g *gen) mutDescribe() piece {
 	case 10:
 		return respPiece("r", Mut{Op: "sub", K: "t=0 0\r\n", V: "t=0 0\r\na=control:*\r\n"})
 	}
-	return respPiece("r", Mut{Op: "sub", K: "t=0 0\r\n", V: "t=0 0\r\na=control:rtsp://$HOST/stream/\r\n"})
+	return respPiece("r", Mut{Op: "sub", K: "t=0 0\r\n", V: "t=0 0\r\na=control:$SCHEME://$HOST/stream/\r\n"})
 }
 
 // mutations of the SDP whose effect on the parsed description is not predicted (property only)
@@ -617,6 +618,80 @@ func (g *gen) concurrent(i int) *Script {
 	return sc
 }
 
+func (g *gen) badMikey() string {
+	b := mikeyBytes(0x1000)
+	switch g.pick(9) {
+	case 0:
+		return "mikey "
+	case 1:
+		return "mikey !!!notbase64"
+	case 2:
+		return "foo bar"
+	case 3:
+		if len(b) > 4 {
+			b = b[:1+g.pick(len(b)-1)]
+		}
+	case 4:
+		b = append(b, b...)
+	case 5:
+		b = nil
+	default:
+		for range 1 + g.pick(4) {
+			if len(b) > 0 {
+				b[g.pick(len(b))] ^= byte(1 << g.pick(8))
+			}
+		}
+	}
+	return "mikey " + base64.StdEncoding.EncodeToString(b)
+}
+
+// secure: rtsps conversations (TLS, SRTP keys in MIKEY messages); not modelled
+func (g *gen) secure(i int) *Script {
+	sc := g.baseScript(g.chance(0.3))
+	sc.Name = fmt.Sprintf("tls-%d", i)
+	sc.Model = false
+	sc.Cfg.Secure = true
+	rec := sc.Prog[0].Api == "announce"
+	for j := range sc.Medias {
+		sc.Medias[j].Back = false
+		if g.chance(0.7) {
+			sc.Medias[j].Secure = true
+			if !rec && g.chance(0.35) {
+				sc.Medias[j].KeyMgmt = g.badMikey()
+			}
+		}
+	}
+	sc.Cfg.BackCh = false
+	if g.chance(0.4) { // KeyMgmt header in a SETUP response
+		v := `prot=mikey;uri="";data="` + strings.TrimPrefix(pickOf(g, "mikey "+mikeyB64(0x2000), g.badMikey()), "mikey ") + `"`
+		if g.chance(0.2) {
+			v = pickOf(g, "", "prot=mikey", `prot=foo;uri="";data="AAAA"`, `data=""`)
+		}
+		sc.React = append(sc.React, Reaction{M: "SETUP", N: 1 + g.pick(2), Acts: []Action{{Kind: "resp", Muts: []Mut{{Op: "set", K: "KeyMgmt", V: v}}}}, Abs: "?"})
+	}
+	if g.chance(0.15) { // Axis cameras: "key management failure"
+		sc.React = append(sc.React, Reaction{M: "SETUP", N: 1, Acts: []Action{{Kind: "resp", Muts: []Mut{{Op: "status", V: "463 Key management failure"}}}}, Abs: "?"})
+	}
+	for range g.pick(3) {
+		g.mutateOne(sc, g.chance(0.3))
+	}
+	if g.chance(0.3) && !rec { // SRTP-looking datagrams / frames after PLAY
+		var acts []Action
+		acts = append(acts, Action{Kind: "resp"})
+		for range 1 + g.pick(5) {
+			if sc.Cfg.Proto == 3 {
+				acts = append(acts, Action{Kind: "frame", Ch: g.pick(4), Payload: g.framePayload()})
+			} else {
+				acts = append(acts, Action{Kind: "udp", Ch: g.pick(2), Payload: g.framePayload()})
+			}
+		}
+		sc.React = append(sc.React, Reaction{M: "PLAY", N: 1, Acts: acts, Abs: "?"})
+	}
+	sc.Model = false
+	sc.Frames = g.chance(0.5)
+	return sc
+}
+
 // script makes one mutated conversation.
 func (g *gen) script(i int, wild bool) *Script {
 	sc := g.baseScript(g.chance(0.3))
@@ -640,6 +715,22 @@ func (g *gen) script(i int, wild bool) *Script {
 	sc.Name = fmt.Sprintf("%s-%d", kind, i)
 	// what the model does not cover
 	if sc.Cfg.Proto == 2 || sc.Cfg.Secure || sc.Cfg.Tunnel != 0 {
+		sc.Model = false
+	}
+	// a server that sleeps past the timeout also delays its later reactions on that connection: only
+	// predictable when nothing else (a response without usable CSeq) can complete the waiting call early
+	long, loose := false, len(sc.Accept) > 0
+	for _, r := range sc.React {
+		for _, a := range r.Acts {
+			if a.Kind == "sleep" && a.Ms > sc.Cfg.RTms/2 {
+				long = true
+			}
+		}
+		if strings.Contains(r.Abs, "cs=m") || strings.Contains(r.Abs, "cs=d") {
+			loose = true
+		}
+	}
+	if long && loose {
 		sc.Model = false
 	}
 	return sc
